@@ -1106,7 +1106,9 @@ class DISP(Command):
 
     def __init__(self, shx, spline: list) -> None:
         super(DISP, self).__init__(shx, spline)
-        self.element, self.parameter = self._parse_line(spline)
+        # _parse_line() returns the numbers first, then the words:
+        self.parameter, elements = self._parse_line(spline)
+        self.element = elements[0] if elements else None
 
 
 class Restraints():
